@@ -231,7 +231,17 @@ def Struct(name, members, style='internal', tracked=False):
                  '  %s(%s&& o) : m0(o.m0) { ::vf::g_ledger.born++; }\n  ~%s() { ::vf::g_ledger.died++; }\n'
                  '  %s& operator=(const %s&) = default;\n  %s& operator=(%s&&) = default;'
                  % ((name,) * 10))
-    if style == 'external':
+    if style == 'template':
+        # a class template annotated inside (the abbreviated name is passed to the macro); the pool type is one instantiation
+        macro = 'NOP_STRUCTURE(%sT%s);' % (name, (', ' + refs) if refs else '')
+        text = 'template <typename X, std::size_t N>\nstruct %sT {\n  %s\n  %s\n};\nusing %s = %sT<long, 3>;' % (name, body, macro, name, name)
+    elif style == 'external_template':
+        # a class template annotated from outside by its base template name: every instantiation is recognised
+        text = ('template <typename X>\nstruct %sT {\n  %s\n};\nNOP_EXTERNAL_STRUCTURE(%sT%s);\nusing %s = %sT<short>;'
+                % (name, body, name, (', ' + refs) if refs else '', name, name))
+        if unb:
+            text += '\nNOP_EXTERNAL_UNBOUNDED_BUFFER(%sT);' % name
+    elif style == 'external':
         text = 'struct %s {\n  %s\n};\nNOP_EXTERNAL_STRUCTURE(%s%s);' % (name, body, name, (', ' + refs) if refs else '')
         if unb:
             text += '\nNOP_EXTERNAL_UNBOUNDED_BUFFER(%s);' % name
